@@ -168,7 +168,21 @@ func specshareComponent(g *G, n int, opts map[string]string) *Out {
 				g.mode = "c18"
 			}
 			c := &shCase{Spec: g.specNoLoop(opts)}
-			for i := 0; i < goroutines; i++ {
+			walkers := goroutines
+			if len(todo) == 1 && opts["nocrowd"] == "" {
+				// a crowd: a hundred machines inside interpreted actions of one specification at the same time (every
+				// interpreted action takes a while)
+				walkers = 100
+				for try := 0; try < 30 && c.Spec.allNative(); try++ {
+					c.Spec = g.specNoLoop(opts)
+				}
+				for _, nd := range c.Spec.Nodes {
+					if nd.Action != nil && !nd.Action.Native {
+						nd.Action.P.Ops = append([]Op{{Kind: "spin"}}, nd.Action.P.Ops...)
+					}
+				}
+			}
+			for i := 0; i < walkers; i++ {
 				w := &shWalk{State: g.astate(c.Spec), Limit: 1 + g.intn(10)}
 				if w.State.Bs != nil && g.mode == "c18" {
 					w.State.Bs["cfg!"] = fmt.Sprintf("walker-%d", i)
